@@ -975,6 +975,9 @@ static void do_setup(void) {
 static void free_payloads(void) {
     for (int p = 1; p <= NP; p++) if (PAY[p].ptr && !(PAY[p].autofree && vp_watch_freed[PAY[p].watch])) { vp_free(PAY[p].ptr); PAY[p].ptr = NULL; }
 }
+static void close_user_fds(void) {
+    for (int k2 = 1; k2 <= NKEY; k2++) { if (ufd_r[k2] >= 0) __real_close(ufd_r[k2]); if (ufd_w[k2] >= 0) __real_close(ufd_w[k2]); ufd_r[k2] = ufd_w[k2] = -1; }
+}
 static int threaded;
 static void on_alarm(int sig) {
     if (threaded) {      /* (several replaying threads: the signal may run on any of them) */
@@ -1026,8 +1029,9 @@ static int gw_run(const int *prog, int n) {
     if (task_mode && !failed) task_settle("");
     in_program = 0;
     kids_reap();
-    for (int k2 = 1; k2 <= NKEY; k2++) { if (ufd_r[k2] >= 0) __real_close(ufd_r[k2]); if (ufd_w[k2] >= 0) __real_close(ufd_w[k2]); }
-    if (failed) return 1;
+    int was_failed = failed;
+    if (failed) close_user_fds();
+    if (was_failed) return 1;
     /* programs end in a clean state: context released, no references held: nothing may be left */
     if (is_clean(cur_state)) free_payloads();
     if (is_clean(cur_state)) {
@@ -1037,6 +1041,7 @@ static int gw_run(const int *prog, int n) {
     } else {
         /* not clean (only when no completion exists): release what we can; callbacks made meanwhile are not part of the program */
         failed = 1;
+        in_program = 1;               /* (the descriptor ledger follows the teardown) */
         if (task_mode) task_release_all();
         if (m_ctx_name() && m_ctx() && m_ctx()->state == M_CTX_LOOPING) { m_ctx_quit(0); batch_armed = 0; nbatch = 0; m_ctx_dispatch(); }     /* a looping context refuses to go */
         /* every reference the program holds is dropped exactly once (a successful deregistration consumes one of them) */
@@ -1054,10 +1059,12 @@ static int gw_run(const int *prog, int n) {
         long left = vp_outstanding + __atomic_load_n(&vp_foreign_outstanding, __ATOMIC_SEQ_CST) - base;
         vp_outstanding = base - __atomic_load_n(&vp_foreign_outstanding, __ATOMIC_SEQ_CST);
         failed = 0;
+        in_program = 0;
         /* the driver's own teardown reaches a clean state too (every module deregistered, every reference dropped, context released) */
         if (left != 0) { gw_mismatch(prog, n, n - 1, "core-leak-after-teardown", "allocator ledger: %ld blocks outstanding after the program's modules were deregistered, its references dropped and its context released", left); if (gw_forked) gw_resume_exit(); return 1; }
         if (lib_fds_open()) { gw_mismatch(prog, n, n - 1, "core-fd-leak-after-teardown", "%d descriptors opened by the library are still open after the program's modules were deregistered, its references dropped and its context released", lib_fds_open()); if (gw_forked) gw_resume_exit(); return 1; }
     }
+    close_user_fds();                 /* (after the teardown: an auto-close source still registered closes its descriptor itself) */
 #if defined(__has_feature)
 #if __has_feature(address_sanitizer)
     /* what the library allocates behind the allocator hook (compiled regular expressions, duplicated strings) is watched by
